@@ -43,10 +43,32 @@ def fuse_two_phases(phase_name, phase1, phase2, should_disambiguate_name=None):
             # two methods; only per-step names are kept apart.
             should_disambiguate_name = _is_not_state_variable
 
-        from pymbolic.imperative.transform import disambiguate_and_fuse
-        new_statements, _, old_2_id_to_new_2_id = disambiguate_and_fuse(
+        from pymbolic.imperative.transform import (
+            disambiguate_identifiers, fuse_statement_streams_with_unique_ids)
+        statements2, subst2 = disambiguate_identifiers(
                 phase1.statements, phase2.statements,
                 should_disambiguate_name)
+
+        # map_expressions() (used above) renames neither the condition of a
+        # statement nor its loop identifiers.
+        from pymbolic import substitute
+
+        def rename_condition_and_loops(stmt):
+            changes = {}
+            condition = getattr(stmt, "condition", True)
+            if condition is not True and condition is not False:
+                changes["condition"] = substitute(condition, subst2)
+            if getattr(stmt, "loops", None):
+                changes["loops"] = [
+                        (subst2[ident].name if ident in subst2 else ident,
+                            start, end)
+                        for ident, start, end in stmt.loops]
+            return stmt.copy(**changes) if changes else stmt
+
+        statements2 = [rename_condition_and_loops(stmt) for stmt in statements2]
+
+        new_statements, _ = fuse_statement_streams_with_unique_ids(
+                phase1.statements, statements2)
 
         return ExecutionPhase(
                 name=phase1.name,
